@@ -11,12 +11,6 @@ Definition err_eqb (a b : err) : bool :=
   | _, _ => false
   end.
 
-Definition kind_eqb (a b : kind) : bool :=
-  match a, b with
-  | Reflection, Reflection | Cosinus, Cosinus => true
-  | _, _ => false
-  end.
-
 Definition output_eqb (a b : output) : bool :=
   list_eqb (pair_eqb N.eqb N.eqb) (fst a) (fst b) &&
   list_eqb (pair_eqb kind_eqb N.eqb) (snd a) (snd b).
